@@ -13,7 +13,8 @@ RULE = ("Batches of Hypothesis-generated designs (C01 generator, biased toward b
         "no-connects, port references, arrays, pairs, generator-named modules) plus the examples / built-in generator corpus; each "
         "batch is run by S real subprocesses (S=8 quick, 24 thorough) with drawn PYTHONHASHSEED values, a drawn permutation of the "
         "batch and drawn amounts of unrelated allocation / elaboration before each design; every other worker discards and "
-        "garbage-collects each design before the next one is built (so object addresses are re-used), the rest keep all alive. For every design all workers must "
+        "garbage-collects each design before the next one is built (so object addresses are re-used), the rest keep all alive; every third batch also holds seven hand-written corner designs (one number written four ways in generator "
+        "parameters, one bundle port reference used twice on an instance, reference cycles within an instance, a set-valued generator parameter). For every design all workers must "
         "report the same SHA-256 of Package.SerializeToString(deterministic=True) and of the spice, spectre and verilog netlist "
         "text (a netlister exception must be the same class everywhere). Non-trivial = design with a bundle / anonymous-bundle "
         "connection, no-connect, port reference, array or pair; distinct by canonical spec hash.")
@@ -74,6 +75,8 @@ def main(tier):
                 items += [{"key": "c%d" % k, "corpus": k} for k in range(len(its))]
                 items += [{"key": "p%d" % k, "pdk_item": k} for k in range(4)]  # PDK-compiled designs (sample, Sky130, GF180, ASAP7)
             items += [{"key": "ch%d_%d" % (bi, k), "churn": k} for k in range(4)]
+            if bi % 3 == 0:
+                items += [{"key": "sh%d_%d" % (bi, k), "shape": k} for k in range(7)]
             batches.append((items, chunk))
             for w in range(S):
                 order = list(range(len(items)))
@@ -106,9 +109,9 @@ def main(tier):
             for k, it in enumerate(items):
                 key = it["key"]
                 ref = runs[0][2].get(key)
-                feats = list(chunk[k].get("features", [])) if k < len(chunk) else ["churn_design", "anon_bundle"] if "churn" in it else ["corpus"]
+                feats = list(chunk[k].get("features", [])) if k < len(chunk) else ["churn_design", "anon_bundle"] if "churn" in it else ["shape_%d" % it["shape"], "portref"] if "shape" in it else ["corpus"]
                 case = ({"spec": it["spec"]} if "spec" in it else {"pdk_item": it["pdk_item"]} if "pdk_item" in it else
-                        {"churn": it["churn"]} if "churn" in it else {"corpus": its[it["corpus"]][0]})
+                        {"churn": it["churn"]} if "churn" in it else {"shape": it["shape"]} if "shape" in it else {"corpus": its[it["corpus"]][0]})
                 if ref and ref.get("proto", "").startswith(("EXC", "BUILD-EXC")):
                     res.reject(ref["proto"])
                 for w, hs, o in runs[1:]:
@@ -135,6 +138,8 @@ def replay(case):
             items = [{"key": "x", "spec": case["spec"]}]
         elif "pdk_item" in case:
             items = [{"key": "x", "pdk_item": case["pdk_item"]}]
+        elif "shape" in case:
+            items = [{"key": "x", "shape": case["shape"]}] + [{"key": "n%d" % k, "shape": k} for k in range(7) if k != case["shape"]]
         elif "churn" in case:
             items = [{"key": "x", "churn": case["churn"]}] + [{"key": "n%d" % k, "churn": 10 + k} for k in range(6)]
         else:
